@@ -183,13 +183,18 @@ func (n *Node) setupExec(ctx context.Context) (executor.Executor, error) {
 			util.SplitCommandWithParse(n.data.Step.CmdWithArgs)
 	}
 
+	// The script file is an argument of this attempt only: it must not be
+	// added to the step itself, or a retry (or the next iteration of a
+	// repeating step) would be given the removed script files of the earlier
+	// attempts as well.
+	step := n.data.Step
 	if n.scriptFile != nil {
 		var args []string
 		args = append(args, n.data.Step.Args...)
-		n.data.Step.Args = append(args, n.scriptFile.Name())
+		step.Args = append(args, n.scriptFile.Name())
 	}
 
-	cmd, err := executor.NewExecutor(ctx, n.data.Step)
+	cmd, err := executor.NewExecutor(ctx, step)
 	if err != nil {
 		return nil, err
 	}
